@@ -280,7 +280,11 @@ func (env *Env) parseTypeText(text string) (types.Type, bool) {
 		return types.NewSlice(t), true
 	}
 	if i := strings.Index(text, "."); i > 0 && !strings.ContainsAny(text, "[]{}() ") {
-		if pkg := env.importedPkg(text[:i]); pkg != nil {
+		pkg := env.importedPkg(text[:i])
+		if pkg == nil && env.pkg != nil && env.pkg.Name() == text[:i] {
+			pkg = env.pkg
+		}
+		if pkg != nil {
 			if tn, ok := pkg.Scope().Lookup(text[i+1:]).(*types.TypeName); ok {
 				return tn.Type(), true
 			}
